@@ -10,9 +10,20 @@ Translated: `hazan_peng_shashua`, `generalized_belief_propagation`, `primal_feas
 SLICES: lines `self.cliques = cliques; if not convex: …` of `__init__` (`initCliques`) and the last block of `build_graph`
 (`self.messages`, `self.message_order`: `initMessages`).  `__init__` is also checked to dispatch `belief_propagation` to
 `hazan_peng_shashua` (convex) / `generalized_belief_propagation` and to call `build_graph` between `self.cliques = cliques` and
-`self.cliques = sorted(self.regions, key=len)`.  The REST of `build_graph` (intersection closure, cover edges, `min_edges` with
-`DisjointSet`, counting numbers, N/D/B) is NOT translated: its results (`regions`, `children`, `parents`, `counting_numbers`, `N`,
-`D`, `B`) are inputs of the definitions, tied to the hand model by the correspondence run only.
+`self.cliques = sorted(self.regions, key=len)`.
+`build_graph` is translated in two parts: `closure` (lines 120-127: `set(self.cliques)`, the `while` loop as `closureWhile` by recursion on
+an iteration bound `fuel`, `tuple(sorted(set(r1) & set(r2)))` = contract `RG.sortedInter`) and, from `G = nx.DiGraph()` on, four variants
+`buildGraph{C,N}{M,S}` (convex / non-convex × minimal / saturated; `self.convex`, `self.minimal` decided by the variant) taking the closed
+region set as an ordered list: cover edges, children / parents / descendants / ancestors, `min_edges` with `DisjointSet`, counting numbers
+(the nested memoised recursion `get_counting_number` becomes `<variant>_get_counting_number` by recursion on a depth bound `fuel`, the
+dictionary threaded through the calls), N / D / B of both branches (sets as repetition-free lists, `lambda`s inlined at the call), messages
+and message order.  Contracts (prelude of the output / `PGM/Model/RegionGraph.lean`): `DiGraph` = node list + log of `add_edge` calls,
+`nxEdges` (`G.edges` = `RG.edgesOf`), `nxNeighbors`, `nxRevNeighbors` (`G.reverse().neighbors`), `nxTCNeighbors` / `nxTCRevNeighbors`
+(`nx.transitive_closure(·).neighbors` = `RG.reach`), `RG.DS` for `DisjointSet` (`find` whose value is dropped = `touch`).
+Further statements: `a, b = E1, E2`; `while C: BODY`; `S.add(x)` / `S.update({x})` / `L.extend(XS)` / `G.add_edge(..)` / `ds.union(..)`;
+`f = lambda r: E` (inlined at `f(x)` in the environment of the call); nested `def` only as the memoised recursion above.
+Further expressions: `{x}`, `[x]`, `set(X)`, `a - b`, `a & b`, `[x] + L`, `len(X)`, `x in S`, `and` / `or`, `e[0]` / `e[1]`, list and dict comprehensions,
+`itertools.combinations(X, 2)` (`GM.combos2`, a snapshot), `1.0` as a counting number = the integer 1.
 Anything outside the subset below stops the translator (exit 1, file:line and the construct).
 
 MESSAGE PASSING (`Tr`)
@@ -55,7 +66,7 @@ Expressions
 Python `set` iteration order is hash dependent: every definition that iterates `self.regions` takes the ordered list as an
 argument; N/D/B of the minimal branch are sets of edges, read as lists.
 Skipped (listed in the header of the output): show, project, wiegerinck, loh_wibisono, kikuchi_entropy, mle,
-estimate_kikuchi_marginal, and `build_graph` up to `self.messages = {}`.
+estimate_kikuchi_marginal.
 """
 import argparse, ast, os, sys
 from fractions import Fraction
@@ -89,13 +100,16 @@ def ind(text, n):
 LEANTY = {'region': 'Region', 'regions': 'List Region', 'edge': 'Edge', 'edges': 'List Edge',
           'adj': 'List (Region × List Region)', 'edict': 'List (Edge × List Edge)', 'bdict': 'List (Region × List Edge)',
           'cnt': 'Region → α', 'ecnt': 'List (Edge × α)', 'cvec': 'CliqueVec α', 'msgs': 'Msgs α', 'factor': 'Factor α',
-          'scalar': 'α', 'nat': 'Nat', 'pyval': 'PyVal α', 'attrs': 'List Attr', 'flat': 'List α', 'bool': 'Bool', 'dom': 'Dom'}
+          'digraph': 'DiGraph', 'rdigraph': 'DiGraph', 'tcg': 'DiGraph', 'tcr': 'DiGraph', 'ds': 'RG.DS', 'int': 'Int',
+          'cntd': 'List (Region × Int)', 'scalar': 'α', 'nat': 'Nat', 'pyval': 'PyVal α', 'attrs': 'List Attr', 'flat': 'List α', 'bool': 'Bool', 'dom': 'Dom'}
 ELEM = {'regions': 'region', 'edges': 'edge'}
-KEYTY = {'cvec': 'region', 'msgs': 'edge', 'ecnt': 'edge', 'adj': 'region', 'edict': 'edge', 'bdict': 'region', 'cnt': 'region'}
-VALTY = {'cvec': 'factor', 'msgs': 'factor', 'ecnt': 'scalar', 'adj': 'regions', 'edict': 'edges', 'bdict': 'edges', 'cnt': 'scalar'}
-GETTER = {'cvec': 'CliqueVec.get', 'msgs': 'msgGet', 'ecnt': 'numGet', 'adj': 'look', 'edict': 'look', 'bdict': 'look'}
-SETTER = {'cvec': 'CliqueVec.set', 'msgs': 'GM.dictSet', 'ecnt': 'GM.dictSet'}
-MUTABLE = ('cvec', 'msgs', 'ecnt')
+KEYTY = {'cntd': 'region', 'cvec': 'region', 'msgs': 'edge', 'ecnt': 'edge', 'adj': 'region', 'edict': 'edge', 'bdict': 'region', 'cnt': 'region'}
+VALTY = {'cntd': 'int', 'cvec': 'factor', 'msgs': 'factor', 'ecnt': 'scalar', 'adj': 'regions', 'edict': 'edges', 'bdict': 'edges', 'cnt': 'scalar'}
+GETTER = {'cntd': 'intGet', 'cvec': 'CliqueVec.get', 'msgs': 'msgGet', 'ecnt': 'numGet', 'adj': 'look', 'edict': 'look', 'bdict': 'look'}
+SETTER = {'cvec': 'CliqueVec.set', 'msgs': 'GM.dictSet', 'ecnt': 'GM.dictSet', 'cntd': 'GM.dictSet', 'adj': 'GM.dictSet', 'edict': 'GM.dictSet', 'bdict': 'GM.dictSet'}
+MUTABLE = ('cvec', 'msgs', 'ecnt', 'cntd', 'adj', 'edict', 'bdict')
+SETLIKE = ('regions', 'edges')        # Python sets / lists of regions / edges: a set is the list of its elements without repetition
+MUTATORS = ('append', 'extend', 'add', 'update', 'add_edge', 'add_nodes_from', 'add_edges_from', 'find', 'union')
 DEFAULT = {'cvec': '([] : CliqueVec α)', 'msgs': '([] : Msgs α)'}
 
 
@@ -110,6 +124,9 @@ def lit(value, node):
         return 'Scalar.zero'
     num = 'Scalar.one' if q.numerator == 1 else f'(Scalar.ofNat {q.numerator})'
     return num if q.denominator == 1 else f'(Scalar.div {num} (Scalar.ofNat {q.denominator}))'
+
+
+MEMO = {}       # nested memoised recursion -> the dictionary it updates
 
 
 def stores(stmts):
@@ -141,8 +158,10 @@ def stores(stmts):
                 tgt(n.target)
             elif isinstance(n, ast.For):
                 tgt(n.target)
-            elif isinstance(n, ast.Expr) and isinstance(n.value, ast.Call) and isinstance(n.value.func, ast.Attribute) and n.value.func.attr == 'append':
+            elif isinstance(n, ast.Expr) and isinstance(n.value, ast.Call) and isinstance(n.value.func, ast.Attribute) and n.value.func.attr in MUTATORS:
                 tgt(n.value.func.value)
+            elif isinstance(n, ast.Expr) and isinstance(n.value, ast.Call) and isinstance(n.value.func, ast.Name) and n.value.func.id in MEMO:
+                add(MEMO[n.value.func.id])
     return out
 
 
@@ -160,10 +179,14 @@ class Tr:
         self.fresh = set(fresh or ())     # names bound to a Factor created by the expression that bound them
         self.dead = {}
         self.lets = []
+        self.lambdas = {}                 # name -> ast.Lambda (inlined at the call, in the environment of the call)
+        self.memofs = {}                  # nested memoised recursions: python name -> (lean head, dictionary)
 
     def sub(self):
         t = Tr(self.gen, self.spec, self.env, self.alias, self.fresh)
         t.dead = dict(self.dead)
+        t.lambdas = dict(self.lambdas)
+        t.memofs = dict(self.memofs)
         return t
 
     def key(self, name):
@@ -211,12 +234,49 @@ class Tr:
         if isinstance(n, ast.Tuple) and len(n.elts) == 2:
             a, b = self.typed(n.elts[0], 'region'), self.typed(n.elts[1], 'region')
             return f'({a}, {b})', 'edge'
+        if isinstance(n, ast.Set) and len(n.elts) == 1:                 # {x}
+            t, ty = self.expr(n.elts[0])
+            if ty in ('region', 'edge'):
+                return f'[{t}]', ty + 's'
+            fail(n, f'set literal of {ty}')
+        if isinstance(n, ast.List) and len(n.elts) == 1:                # [x]
+            t, ty = self.expr(n.elts[0])
+            if ty in ('region', 'edge'):
+                return f'[{t}]', ty + 's'
+            fail(n, f'list literal of {ty}')
+        if isinstance(n, ast.BoolOp):
+            op = ' && ' if isinstance(n.op, ast.And) else ' || '
+            return '(' + op.join(self.typed(v, 'bool') for v in n.values) + ')', 'bool'
+        if isinstance(n, ast.ListComp):
+            xs, ety = self.generator(n, n)
+            if ety in ('region', 'edge'):
+                return xs, ety + 's'
+            fail(n, f'list of {ety}')
+        if isinstance(n, ast.DictComp):
+            g = n.generators[0] if len(n.generators) == 1 else fail(n, 'unsupported comprehension')
+            if g.ifs or not isinstance(g.target, ast.Name) or not (isinstance(n.key, ast.Name) and n.key.id == g.target.id):
+                fail(n, 'only {k: E for k in XS} with the key itself is supported')
+            xs = self.typed(g.iter, 'regions')          # XS is a set / a list of distinct keys: one entry per element
+            inner = self.sub()
+            inner.env[g.target.id] = (g.target.id, 'region')
+            inner.alias.pop(g.target.id, None)
+            inner.dead.pop(g.target.id, None)
+            et, ety = inner.expr(n.value)
+            if ety == 'scalar' and isinstance(n.value, ast.Constant) and float(n.value.value) == int(n.value.value):
+                et, ety = f'({int(n.value.value)} : Int)', 'int'        # counting numbers: the float 1.0 read as the integer 1 (exact)
+            dty = {'regions': 'adj', 'int': 'cntd', 'edges': 'bdict'}.get(ety) or fail(n, f'dictionary of {ety}')
+            return f'({xs}.map (fun {g.target.id} => ({g.target.id}, {et})))', dty
         if isinstance(n, ast.Attribute):
             if isinstance(n.value, ast.Name) and n.value.id == 'self':
                 return self.field(n)
+            if n.attr == 'edges':
+                g = self.typed(n.value, 'digraph')
+                return f'(nxEdges {g})', 'edges'
             fail(n, 'unsupported attribute')
         if isinstance(n, ast.Subscript):
             base, tb = self.expr(n.value)
+            if tb == 'edge' and isinstance(n.slice, ast.Constant) and n.slice.value in (0, 1):
+                return f'{base}.{n.slice.value + 1}', 'region'
             if tb in KEYTY:
                 k = self.typed(n.slice, KEYTY[tb])
                 if tb == 'cnt':
@@ -254,8 +314,12 @@ class Tr:
             a, b = self.typed(l.args[0], 'region'), self.typed(r.args[0], 'region')
             return f'(ssubset {a} {b})', 'bool'
         (a, ta), (b, tb) = self.expr(l), self.expr(r)
-        if isinstance(op, ast.In) and ta == 'region' and tb == 'regions':
-            return f'(List.contains {b} {a})', 'bool'
+        if isinstance(op, (ast.In, ast.NotIn)) and ((ta == 'region' and tb == 'regions') or (ta == 'edge' and tb == 'edges')):
+            return (f'(List.contains {b} {a})' if isinstance(op, ast.In) else f'(!(List.contains {b} {a}))'), 'bool'
+        if isinstance(op, (ast.In, ast.NotIn)) and ta == 'region' and tb == 'cntd':
+            return (f'(dictHas {b} {a})' if isinstance(op, ast.In) else f'(!(dictHas {b} {a}))'), 'bool'
+        if isinstance(op, ast.Gt) and ta == tb == 'nat':
+            return f'(decide ({a} > {b}))', 'bool'
         if isinstance(op, ast.NotEq) and ta == tb and ta in ('region', 'edge'):
             return f'({a} != {b})', 'bool'
         if isinstance(op, ast.Eq) and ta == tb == 'nat':
@@ -303,6 +367,15 @@ class Tr:
                 return f'(Scalar.{f} {a} {b})', 'scalar'
         if ta == 'scalar' and tb == 'nat' and isinstance(op, ast.Div):
             return f'(Scalar.div {a} (Scalar.ofNat {b}))', 'scalar'
+        if ta == tb and ta in SETLIKE:
+            if isinstance(op, ast.Sub):
+                return f'(setMinus {a} {b})', ta
+            if isinstance(op, ast.BitAnd):
+                return f'(setInter {a} {b})', ta
+            if isinstance(op, ast.Add):
+                return f'({a} ++ {b})', ta
+        if {ta, tb} <= {'int', 'nat'} and 'int' in (ta, tb) and isinstance(op, (ast.Sub, ast.Add)):
+            return f'(({a} : Int) {"-" if isinstance(op, ast.Sub) else "+"} {b})', 'int'
         if ta == tb == 'flat' and isinstance(op, ast.Sub):
             return f'(flatSub {a} {b})', 'flat'
         fail(n, f'unsupported operator on {ta} and {tb}')
@@ -346,6 +419,12 @@ class Tr:
                 if ety == 'scalar':
                     return f'({xs}.foldl Scalar.add Scalar.zero)', 'scalar'
                 fail(n, f'sum of {ety}')
+            if f.id == 'tuple' and len(args) == 1 and not kws and isinstance(args[0], ast.Call) and ast.unparse(args[0].func) == 'sorted' \
+                    and len(args[0].args) == 1 and not args[0].keywords and isinstance(args[0].args[0], ast.BinOp) and isinstance(args[0].args[0].op, ast.BitAnd):
+                b = args[0].args[0]
+                if all(isinstance(x, ast.Call) and ast.unparse(x.func) == 'set' and len(x.args) == 1 and not x.keywords for x in (b.left, b.right)):
+                    x, y = self.typed(b.left.args[0], 'region'), self.typed(b.right.args[0], 'region')
+                    return f'(RG.sortedInter {x} {y})', 'region'       # contract: the common attribute names, sorted as strings
             if f.id == 'tuple' and len(args) == 1 and not kws:
                 s = args[0]
                 if isinstance(s, ast.BinOp) and isinstance(s.op, ast.Sub) and all(
@@ -354,6 +433,31 @@ class Tr:
                     a, b = self.typed(s.left.args[0], 'region'), self.typed(s.right.args[0], 'region')
                     return f'(setDiff {a} {b})', 'attrset'
                 fail(n, 'only tuple(set(a) - set(b)) is supported')
+            if f.id == 'set' and len(args) == 1 and not kws:
+                t, ty = self.expr(args[0])
+                if ty in SETLIKE:
+                    return f'(pySet {t})', ty
+                fail(n, f'set of {ty}')
+            if f.id == 'list' and len(args) == 1 and not kws:
+                t, ty = self.expr(args[0])
+                if ty in SETLIKE:
+                    return t, ty
+                fail(n, f'list of {ty}')
+            if f.id == 'len' and len(args) == 1 and not kws:
+                t, ty = self.expr(args[0])
+                if ty in SETLIKE or ty == 'region':
+                    return f'(List.length {t})', 'nat'
+                fail(n, f'len of {ty}')
+            if f.id == 'DisjointSet' and not args and not kws:
+                return '({} : RG.DS)', 'ds'
+            if f.id in self.lambdas and len(args) == 1 and not kws:
+                lam = self.lambdas[f.id]
+                inner = self.sub()               # the body is evaluated in the environment of the CALL (late binding)
+                at, aty = self.expr(args[0])
+                inner.env[lam.args.args[0].arg] = (at, aty)
+                inner.alias.pop(lam.args.args[0].arg, None)
+                inner.dead.pop(lam.args.args[0].arg, None)
+                return inner.expr(lam.body)
             if f.id == 'sorted' and len(args) == 1 and set(kws) == {'key'} and ast.unparse(kws['key']) == 'len':
                 return f'(sortByLen {self.typed(args[0], "regions")})', 'regions'      # stable, ascending
             if f.id == 'any' and len(args) == 1 and not kws and isinstance(args[0], ast.GeneratorExp):
@@ -366,6 +470,15 @@ class Tr:
                 self.gen.need_cv_ctor(n)
                 return self.typed(args[0], 'cvec'), 'cvec'
             fail(n, 'unsupported function')
+        if src == 'nx.DiGraph' and not args and not kws:
+            return '(DiGraph.empty)', 'digraph'
+        if src == 'nx.transitive_closure' and len(args) == 1 and not kws:
+            t, ty = self.expr(args[0])
+            if ty in ('digraph', 'rdigraph'):
+                return t, {'digraph': 'tcg', 'rdigraph': 'tcr'}[ty]
+            fail(n, f'transitive_closure of {ty}')
+        if src == 'itertools.combinations' and len(args) == 2 and not kws and isinstance(args[1], ast.Constant) and args[1].value == 2:
+            return f'(GM.combos2 {self.typed(args[0], "regions")})', 'edges'
         if src == 'np.log' and len(args) == 1 and not kws:
             return f'(Scalar.log {self.typed(args[0], "scalar")})', 'scalar'
         if src == 'np.linalg.norm' and len(args) == 2 and not kws:
@@ -388,6 +501,13 @@ class Tr:
         if isinstance(f, ast.Attribute):
             m = f.attr
             base, tb = self.expr(f.value)
+            if tb in ('digraph', 'rdigraph', 'tcg', 'tcr') and m == 'neighbors' and len(args) == 1 and not kws:
+                fn = {'digraph': 'nxNeighbors', 'rdigraph': 'nxRevNeighbors', 'tcg': 'nxTCNeighbors', 'tcr': 'nxTCRevNeighbors'}[tb]
+                return f'({fn} {base} {self.typed(args[0], "region")})', 'regions'
+            if tb == 'digraph' and m == 'reverse' and not args and not kws:
+                return base, 'rdigraph'
+            if tb == 'ds' and m == 'find' and len(args) == 1 and not kws:
+                return f'(RG.DS.find {base} {self.typed(args[0], "region")})', 'region'
             if tb == 'dom' and m == 'project' and len(args) == 1 and not kws:
                 return f'(Dom.project {base} {self.typed(args[0], "region")})', 'dom'
             if tb == 'factor':
@@ -466,7 +586,135 @@ class Tr:
             return
         fail(st, 'unsupported assignment target')
 
+    def mutator(self, c, st):
+        m, tgt, args = c.func.attr, c.func.value, c.args
+        cur, tc = self.expr(tgt)
+        if tc == 'digraph':
+            if m == 'add_nodes_from' and len(args) == 1:
+                return self.store(tgt, f'(DiGraph.addNodes {cur} {self.typed(args[0], "regions")})', tc, st)
+            if m == 'add_edge' and len(args) == 2:
+                a, b = self.typed(args[0], 'region'), self.typed(args[1], 'region')
+                return self.store(tgt, f'(DiGraph.addEdge {cur} ({a}, {b}))', tc, st)
+            if m == 'add_edges_from' and len(args) == 1:
+                return self.store(tgt, f'(DiGraph.addEdges {cur} {self.typed(args[0], "edges")})', tc, st)
+        if tc == 'ds':
+            if m == 'find' and len(args) == 1:      # a `find` whose value is dropped: registers the element (IdentityDict.__missing__)
+                return self.store(tgt, f'(RG.DS.touch {cur} {self.typed(args[0], "region")})', tc, st)
+            if m == 'union' and len(args) == 2:
+                a, b = self.typed(args[0], 'region'), self.typed(args[1], 'region')
+                return self.store(tgt, f'(RG.DS.union {cur} {a} {b})', tc, st)
+        if tc in SETLIKE and len(args) == 1:
+            if m == 'add':                           # a set
+                return self.store(tgt, f'(setAdd {cur} {self.typed(args[0], ELEM[tc])})', tc, st)
+            if m == 'update' and isinstance(args[0], ast.Set) and len(args[0].elts) == 1:
+                return self.store(tgt, f'(setAdd {cur} {self.typed(args[0].elts[0], ELEM[tc])})', tc, st)
+            if m == 'extend':                        # a list
+                return self.store(tgt, f'({cur} ++ {self.typed(args[0], tc)})', tc, st)
+        fail(st, f'unsupported method `{m}` of {tc}')
+
+    def while_(self, st):
+        """while C: BODY  ->  `<f>While : Nat -> state -> state` by recursion on an iteration bound `fuel` (exhausted: the current state)"""
+        for x in ast.walk(st):
+            if isinstance(x, (ast.Return, ast.Break, ast.Continue)):
+                fail(x, 'return / break / continue inside a while loop')
+        if 'fuel' not in self.env:
+            fail(st, 'this definition has no iteration bound `fuel`')
+        bound = [self.key(x) for x in stores(st.body)]
+        state = [x for x in self.env if x in bound]
+        if not state:
+            fail(st, 'a loop that updates nothing')
+        tup, sty = self.tuple_of(state)
+        inner = self.sub()
+        inner.lets = []
+        c = inner.typed(st.test, 'bool')
+        if inner.run(st.body) is not None:
+            fail(st, 'return inside a while loop')
+        for x in state:
+            if inner.env[x][1] != self.env[x][1]:
+                fail(st, f'`{x}` changes its type inside the loop')
+        name = self.spec['lean'] + 'While'
+        body = '\n'.join(ind(l, 6) for l in inner.lets)
+        self.gen.emit(f'/-- the `while` loop of `{self.spec["py"]}` ({FILE}:{st.lineno}); state = {tup} -/\n'
+                      f'def {name} : Nat → {sty} → {sty}\n  | 0, st => st\n  | fuel + 1, st =>\n    let {tup} := st\n'
+                      f'    if {c} then\n{body}\n      {name} fuel {tup}\n    else st\n')
+        self.lets.append(f'let {tup} := {name} fuel {tup}')
+        self.kill(bound, state, [])
+
+    def memo_def(self, fn, rest):
+        """def f(r): if not r in M: M[r] = C - sum(f(s) for s in XS) ; return M[r]     (M a dictionary of the enclosing scope)"""
+        a = fn.args
+        if len(a.args) != 1 or a.defaults or a.vararg or a.kwarg or fn.decorator_list or len(fn.body) != 2:
+            fail(fn, 'unsupported nested function')
+        r = a.args[0].arg
+        i, ret = fn.body
+        ok = isinstance(i, ast.If) and not i.orelse and len(i.body) == 1 and isinstance(i.body[0], ast.Assign) and isinstance(ret, ast.Return)
+        if ok:
+            asg = i.body[0]
+            tgt = asg.targets[0]
+            ok = isinstance(tgt, ast.Subscript) and isinstance(tgt.value, ast.Name) and ast.unparse(tgt.slice) == r \
+                and ast.unparse(i.test) == f'not {r} in {tgt.value.id}' and ast.unparse(ret.value) == f'{tgt.value.id}[{r}]'
+        if ok:
+            M = tgt.value.id
+            v = asg.value
+            ok = isinstance(v, ast.BinOp) and isinstance(v.op, (ast.Sub, ast.Add)) and isinstance(v.right, ast.Call) and ast.unparse(v.right.func) == 'sum' \
+                and len(v.right.args) == 1 and isinstance(v.right.args[0], ast.GeneratorExp)
+        if ok:
+            g = v.right.args[0]
+            ok = len(g.generators) == 1 and not g.generators[0].ifs and isinstance(g.generators[0].target, ast.Name) \
+                and ast.unparse(g.elt) == f'{fn.name}({g.generators[0].target.id})'
+        if not ok:
+            fail(fn, 'a nested function must be the memoised recursion `if not r in M: M[r] = C ± sum(f(s) for s in XS); return M[r]`')
+        if self.env.get(M, (None, None))[1] != 'cntd':
+            fail(fn, f'`{M}` is not a dictionary of integers of the enclosing scope')
+        inner = self.sub()
+        inner.env[r] = (r, 'region')
+        inner.dead.pop(r, None)
+        inner.alias.pop(r, None)
+        c = inner.typed(v.left, 'nat', 'int')
+        xs = inner.typed(g.generators[0].iter, 'regions')
+        op = '-' if isinstance(v.op, ast.Sub) else '+'
+        name = self.spec['lean'] + '_' + fn.name
+        free = [(self.env[k][0], LEANTY[self.env[k][1]]) for k in self.env if k != M and __import__('re').search(r'(?<![\w.])' + __import__('re').escape(self.env[k][0]) + r'(?![\w])', xs + ' ' + c)]
+        ps = ''.join(f' ({a_} : {t_})' for a_, t_ in free)
+        pa = ''.join(f' {a_}' for a_, _ in free)
+        if name not in self.gen.emitted:
+            self.gen.emitted.add(name)
+            self.gen.emit(f'/-- the nested memoised recursion `{fn.name}` of `{self.spec["py"]}` ({FILE}:{fn.lineno}): the dictionary `{M}` is threaded through the calls, the sum '
+                          f'is evaluated left to right from the int 0; recursion on a depth bound (exhausted: RecursionError in Python, the value 0 here) -/\n'
+                          f'def {name}{ps} : Nat → List (Region × Int) → Region → Int × List (Region × Int)\n'
+                          f'  | 0, {M}, {r} => (0, {M})\n'
+                          f'  | fuel + 1, {M}, {r} =>\n'
+                          f'    if !(dictHas {M} {r}) then\n'
+                          f'      let st := {xs}.foldl (fun (st : Int × List (Region × Int)) s =>\n'
+                          f'        let out := {name}{pa} fuel st.2 s\n'
+                          f'        (st.1 + out.1, out.2)) (0, {M})\n'
+                          f'      let {M} := GM.dictSet st.2 {r} (({c} : Int) {op} st.1)\n'
+                          f'      (intGet {M} {r}, {M})\n'
+                          f'    else (intGet {M} {r}, {M})\n')
+        self.memofs[fn.name] = (name + pa, M)
+        MEMO[fn.name] = M
+        if 'fuel' not in self.env:
+            fail(fn, 'this definition has no recursion-depth parameter `fuel`')
+
+    def memo_call(self, c, st):
+        name, M = self.memofs[c.func.id]
+        if len(c.args) != 1 or c.keywords:
+            fail(st, 'unsupported call')
+        a = self.typed(c.args[0], 'region')
+        self.bind(M, f'({name} fuel {self.env[M][0]} {a}).2', 'cntd', st)
+
     def assign(self, tg, v, st):
+        if (isinstance(v, ast.Call) and ast.unparse(v) == 'set()') or (isinstance(v, (ast.Dict, ast.List)) and not (v.keys if isinstance(v, ast.Dict) else v.elts)):
+            # an empty container: its type is the declared type of the name, or the value type of the dictionary it is stored in
+            if isinstance(tg, ast.Name) and self.spec['locals'].get(tg.id):
+                self.alias.pop(tg.id, None)
+                self.bind(tg.id, '[]', self.spec['locals'][tg.id], st, annotate=True)
+                return
+            if isinstance(tg, ast.Subscript):
+                _, tb = self.expr(tg.value)
+                if tb in MUTABLE and VALTY[tb] in SETLIKE:
+                    self.store(tg, '[]', VALTY[tb], st)
+                    return
         if isinstance(tg, ast.Attribute) and isinstance(tg.value, ast.Name) and tg.value.id == 'self' and tg.attr in self.spec.get('outs', {}) \
                 and ((isinstance(v, ast.Dict) and not v.keys) or (isinstance(v, ast.List) and not v.elts)):
             ty = self.spec['outs'][tg.attr]
@@ -555,8 +803,41 @@ class Tr:
         stmts = [s for s in stmts if not is_doc(s)]
         for idx, st in enumerate(stmts):
             rest = stmts[idx + 1:]
+            if isinstance(st, ast.Assign) and len(st.targets) == 1 and isinstance(st.targets[0], ast.Tuple) and isinstance(st.value, ast.Tuple) \
+                    and len(st.targets[0].elts) == len(st.value.elts):
+                # a, b = E1, E2 : the right-hand sides are evaluated first
+                vals = []
+                for tg, v in zip(st.targets[0].elts, st.value.elts):
+                    if (isinstance(v, ast.Dict) and not v.keys) or (isinstance(v, ast.Call) and ast.unparse(v) == 'set()'):
+                        vals.append(None)
+                    else:
+                        vals.append(self.expr(v))
+                for tg, v, tv in zip(st.targets[0].elts, st.value.elts, vals):
+                    if tv is None:
+                        self.assign(tg, v, st)
+                    else:
+                        self.store(tg, tv[0], tv[1], st, v)
+                continue
+            if isinstance(st, ast.Assign) and len(st.targets) == 1 and isinstance(st.value, ast.Lambda) and isinstance(st.targets[0], ast.Name):
+                if len(st.value.args.args) != 1:
+                    fail(st, 'only one-argument lambdas')
+                self.lambdas[st.targets[0].id] = st.value
+                continue
             if isinstance(st, ast.Assign) and len(st.targets) == 1:
                 self.assign(st.targets[0], st.value, st)
+                continue
+            if isinstance(st, ast.FunctionDef):
+                self.memo_def(st, rest)
+                continue
+            if isinstance(st, ast.While) and not st.orelse:
+                self.while_(st)
+                continue
+            if isinstance(st, ast.Expr) and isinstance(st.value, ast.Call) and isinstance(st.value.func, ast.Name) and st.value.func.id in self.memofs:
+                self.memo_call(st.value, st)
+                continue
+            if isinstance(st, ast.Expr) and isinstance(st.value, ast.Call) and isinstance(st.value.func, ast.Attribute) \
+                    and st.value.func.attr in MUTATORS and st.value.func.attr != 'append' and not st.value.keywords:
+                self.mutator(st.value, st)
                 continue
             if isinstance(st, ast.AugAssign):
                 self.augassign(st)
@@ -800,6 +1081,10 @@ SPECS = [
          doc='`callback` is not read; returns (the CliqueVector, the final `self.messages`)'),
 ]
 SLICES = [
+    dict(py='build_graph', lean='closure', slice=('regions = set(self.cliques)', 3),
+         params=[('cliques', 'regions', 'self'), ('fuel', 'nat', 'arg')], args=[], consts={}, locals={}, ret=None, mutates=[], outs={}, result_local='regions',
+         doc='lines 120-127: the closure of the clique set under non-empty intersections (the set as the list of its first insertions); '
+             '`fuel` bounds the number of passes of the `while` loop'),
     dict(py='__init__', lean='initCliques', slice=('self.cliques = cliques', 2),
          params=[('cliques', 'regions', 'arg'), ('convex', 'bool', 'arg')], args=[], consts={}, locals={}, ret=None, mutates=[],
          outs={'cliques': 'regions'},
@@ -810,6 +1095,20 @@ SLICES = [
          doc='the last block of `build_graph`: `self.messages` (zero in both directions of every edge) and `self.message_order`; '
              '`regions` is the local set, as the ordered list of its elements; returns (self.messages, self.message_order)'),
 ]
+
+BUILD_OUTS = {'children': 'adj', 'parents': 'adj', 'descendants': 'adj', 'ancestors': 'adj', 'forebears': 'adj', 'downp': 'adj', 'G': 'digraph', 'regions': 'regions', 'counting_numbers': 'cntd', 'N': 'edict', 'D': 'edict', 'B': 'bdict', 'messages': 'msgs', 'message_order': 'edges'}
+BUILD_LOCALS = {'min_edges': 'edges', 'canonical': 'regions', 'moebius': 'cntd', 'N': 'edict', 'D': 'edict', 'B': 'bdict'}
+
+
+def build_spec(convex, minimal):
+    res = ['children', 'parents', 'descendants', 'ancestors', 'counting_numbers'] + ([] if convex else ['N', 'D', 'B']) + ['messages', 'message_order']
+    return dict(py='build_graph', lean='buildGraph' + ('C' if convex else 'N') + ('M' if minimal else 'S'), slice=('G = nx.DiGraph()', None),
+                params=[('domain', 'dom', 'self'), ('regions', 'regions', 'arg')] + ([] if convex else [('fuel', 'nat', 'arg')]), args=[],
+                consts={'self.convex': convex, 'self.minimal': minimal}, locals=BUILD_LOCALS, ret=None, mutates=[], outs=BUILD_OUTS, result=res,
+                doc=f'variant convex={convex}, minimal={minimal}: `build_graph` from `G = nx.DiGraph()` on; `regions` is the closed region set as the ordered list of '
+                    'its elements' + ('' if convex else '; `fuel` bounds the depth of the memoised recursion') + '; returns (' + ', '.join('self.' + r for r in res) + ')')
+
+
 SKIPPED = ['show', 'project', 'wiegerinck', 'loh_wibisono', 'kikuchi_entropy', 'mle', 'estimate_kikuchi_marginal']
 # where __init__ / build_graph must set the fields the message-passing definitions take as inputs
 INIT_FIELDS = {'domain': 'self.domain = domain', 'total': 'self.total = total', 'iters': 'self.iters = iters', 'convergence': 'self.convergence = convergence',
@@ -835,6 +1134,7 @@ class Generator:
             if need not in self.imports:
                 fail('module', f'the module no longer says `{need}`')
         self.out = []
+        self.emitted = set()
         self.done = {}
         self._cache = {}
 
@@ -945,7 +1245,12 @@ class Generator:
         if spec['ret'] is None:
             if r is not None:
                 fail(fn, 'unexpected return')
-            outs = list(spec['outs'])
+            if spec.get('result_local'):
+                x = spec['result_local']
+                self.emit(f'/-- `RegionGraph.{py}` ({FILE}:{fn.lineno}) — {spec["doc"]} -/\ndef {spec["lean"]} {self.param_text(spec)} : {LEANTY[tr.env[x][1]]} :=\n  '
+                          + '\n  '.join(ind(l, 0).replace('\n', '\n  ') for l in tr.lets + [tr.env[x][0]]) + '\n')
+                return
+            outs = list(spec.get('result') or spec['outs'])
             for o in outs:
                 if ('self.' + o) not in tr.env:
                     fail(fn, f'self.{o} is not assigned')
@@ -958,7 +1263,7 @@ class Generator:
         if declared - spec['used']:
             fail(fn, f'no longer reads self.{sorted(declared - spec["used"])[0]}')
         if spec['ret'] is None:
-            rty = ' × '.join(LEANTY[t] for t in spec['outs'].values())
+            rty = ' × '.join(LEANTY[spec['outs'][o]] for o in (spec.get('result') or spec['outs']))
         else:
             rty = LEANTY[spec['ret']] + ''.join(f' × {LEANTY[t]}' for p, t, k in spec['params'] if k == 'state')
         doc = f'`RegionGraph.{py}` ({FILE}:{fn.lineno})' + (f' — {spec["doc"]}' if spec.get('doc') else '')
@@ -971,7 +1276,7 @@ class Generator:
         self.done[py] = spec
 
     def run(self):
-        for spec in SPECS + SLICES:
+        for spec in SPECS + SLICES + [build_spec(c, m) for c in (True, False) for m in (True, False)]:
             self.one(spec)
         self.check_init()
         return self.out
@@ -1000,6 +1305,7 @@ HEADER = '''/- GENERATED by tools/py2rg.py from src/mbi/region_graph.py — do n
    Unordered values: `tuple(set(a) - set(b))` is listed in `a`'s order (`setDiff`); it is only passed to `Factor.logsumexp(attrs)`.
    NOT translated: %SKIPPED%. -/
 import PGM.Model.GM
+import PGM.Model.RegionGraph
 set_option linter.unusedVariables false
 namespace PGM.RGG
 open PGM
@@ -1057,6 +1363,43 @@ def ssubset (a b : Region) : Bool := JT.subset a b && !JT.subset b a
 /-- contract of `sorted(xs, key=len)`: stable, ascending (insertion from the left keeps equal keys in order) -/
 def sortByLen (l : List Region) : List Region := Dom.sortBy (fun r => r.length) l
 
+/-! ### Python sets of regions / edges: the list of the elements without repetition -/
+
+/-- `set(xs)` -/
+def pySet {β : Type} [BEq β] (l : List β) : List β := RG.dedup l
+/-- `s.add(x)` / `s.update({x})` -/
+def setAdd {β : Type} [BEq β] (s : List β) (x : β) : List β := if s.contains x then s else s ++ [x]
+/-- `a - b` -/
+def setMinus {β : Type} [BEq β] (a b : List β) : List β := a.filter (fun x => !b.contains x)
+/-- `a & b` -/
+def setInter {β : Type} [BEq β] (a b : List β) : List β := a.filter (fun x => b.contains x)
+/-- `m[k]` / `k in m` for a dictionary of integers -/
+def intGet (m : List (Region × Int)) (k : Region) : Int := (m.lookup k).getD 0
+def dictHas (m : List (Region × Int)) (k : Region) : Bool := (m.lookup k).isSome
+
+/-! ### contracts of `networkx` (insertion-ordered adjacency; `PGM/Model/RegionGraph.lean`: `edgesOf`, `reach`) and of `disjoint_set`
+(`RG.DS`: `find` follows parent pointers, `union x y` re-points the root of `x` to the root of `y`; a `find` whose value is dropped
+registers its argument) -/
+
+/-- a `nx.DiGraph`: its nodes in insertion order and the log of the `add_edge` calls (on nodes that are present) -/
+structure DiGraph where
+  nodes : List Region
+  log : List Edge
+def DiGraph.empty : DiGraph := ⟨[], []⟩
+def DiGraph.addNodes (g : DiGraph) (rs : List Region) : DiGraph := ⟨g.nodes ++ rs.filter (fun r => !g.nodes.contains r), g.log⟩
+def DiGraph.addEdge (g : DiGraph) (e : Edge) : DiGraph := ⟨g.nodes, g.log ++ [e]⟩
+def DiGraph.addEdges (g : DiGraph) (es : List Edge) : DiGraph := ⟨g.nodes, g.log ++ es⟩
+/-- `G.edges`: node-major, each adjacency in insertion order, a repeated edge once -/
+def nxEdges (g : DiGraph) : List Edge := RG.edgesOf g.nodes g.log
+/-- `list(G.neighbors(r))` -/
+def nxNeighbors (g : DiGraph) (r : Region) : List Region := ((nxEdges g).filter (fun e => e.1 == r)).map Prod.snd
+/-- `list(G.reverse().neighbors(r))`: `reverse` re-inserts the edges in `G.edges` order -/
+def nxRevNeighbors (g : DiGraph) (r : Region) : List Region := ((nxEdges g).filter (fun e => e.2 == r)).map Prod.fst
+/-- `list(nx.transitive_closure(G).neighbors(r))`: the nodes reachable by a non-empty path, in node order -/
+def nxTCNeighbors (g : DiGraph) (r : Region) : List Region := RG.reach g.nodes (g.nodes.map (fun u => (u, nxNeighbors g u))) r
+/-- `list(nx.transitive_closure(G.reverse()).neighbors(r))` -/
+def nxTCRevNeighbors (g : DiGraph) (r : Region) : List Region := RG.reach g.nodes (g.nodes.map (fun u => (u, nxRevNeighbors g u))) r
+
 /-- `x - y` on flat numpy vectors of equal length -/
 def flatSub (x y : List α) : List α := List.zipWith Scalar.sub x y
 
@@ -1086,7 +1429,7 @@ def main():
             raise OSError(f'src/mbi/{FILE} not found')
         gen = Generator(srcs)
         defs = gen.run()
-        build = ', and the slices `initCliques` (of `__init__`) and `initMessages` (the last block of `build_graph`)'
+        build = ', the slices `initCliques` (of `__init__`), `closure`, `initMessages` and the four variants `buildGraph{C,N}{M,S}` of `build_graph`'
     except Untranslatable as e:
         print('py2rg: source outside the translatable subset:', e)
         return 1
@@ -1095,7 +1438,7 @@ def main():
         return 1
     os.makedirs(a.out, exist_ok=True)
     with open(os.path.join(a.out, 'RegionGraphG.lean'), 'w') as f:
-        f.write(HEADER.replace('%BUILD%', build).replace('%SKIPPED%', ', '.join(SKIPPED + ['the rest of __init__ (checked: dispatch, order of construction)', 'build_graph before `self.messages = {}`'])) + '\n'.join(defs) + '\nend PGM.RGG\n')
+        f.write(HEADER.replace('%BUILD%', build).replace('%SKIPPED%', ', '.join(SKIPPED + ['the rest of __init__ (checked: dispatch, order of construction)'])) + '\n'.join(defs) + '\nend PGM.RGG\n')
     print(f'py2rg: {len(defs)} definitions')
     return 0
 
